@@ -97,85 +97,176 @@ func c01FmtOrError(r *Report, s *S1) {
 					}
 					break
 				}
-				ex, ok := data.(*ssa.Extract)
-				var fcall *ssa.Call
-				if ok && ex.Index == 0 {
-					fcall, _ = ex.Tuple.(*ssa.Call)
-				}
-				if fcall == nil || fcall.Call.StaticCallee() == nil || !formatterFuncs[fcall.Call.StaticCallee().String()] {
-					detail := fmt.Sprintf("the bytes written are %s (%T), not the first result of imports.Process/format.Source", data.String(), data)
-					if phi, ok := data.(*ssa.Phi); ok {
-						var es []string
-						for _, e := range phi.Edges {
-							es = append(es, e.Name()+"="+e.String())
-						}
-						detail = "the bytes written are a φ of " + strings.Join(es, " | ") + ": on some path the unformatted template text is written and success is reported"
-					}
-					r.Violation("C01/fmt-or-error", key, pos, detail)
-					continue
-				}
-				// find the error test
-				var errEx *ssa.Extract
-				for _, ref := range *fcall.Referrers() {
-					if e, ok := ref.(*ssa.Extract); ok && e.Index == 1 {
-						errEx = e
-					}
-				}
-				if errEx == nil {
-					r.Violation("C01/fmt-or-error", key, pos, "the formatter's error result is never extracted")
-					continue
-				}
-				okGuard := false
-				var ifIns *ssa.If
-				for _, ref := range *errEx.Referrers() {
-					bo, ok := ref.(*ssa.BinOp)
-					if !ok || (bo.Op != token.NEQ && bo.Op != token.EQL) || !(isNilConst(bo.X) || isNilConst(bo.Y)) {
-						continue
-					}
-					for _, r2 := range *bo.Referrers() {
-						iff, ok := r2.(*ssa.If)
-						if !ok {
-							continue
-						}
-						nilSucc := iff.Block().Succs[1] // err != nil false => err == nil
-						errSucc := iff.Block().Succs[0]
-						if bo.Op == token.EQL {
-							nilSucc, errSucc = errSucc, nilSucc
-						}
-						if nilSucc.Dominates(call.Block()) && !errSucc.Dominates(call.Block()) {
-							okGuard = true
-							ifIns = iff
-							// error branch must return non-nil on all returns it dominates, and must have at least one
-							nRet := 0
-							for _, bb := range fn.Blocks {
-								if !errSucc.Dominates(bb) {
-									continue
-								}
-								for _, i2 := range bb.Instrs {
-									if ret, ok := i2.(*ssa.Return); ok {
-										nRet++
-										if len(ret.Results) == 0 || isNilConst(ret.Results[len(ret.Results)-1]) {
-											r.Violation("C01/fmt-or-error", key+":formatter-error branch", s.pos(ret.Pos()), "the branch taken when the formatter fails returns a nil error")
-										}
-									}
-								}
-							}
-							if nRet == 0 {
-								r.Violation("C01/fmt-or-error", key+":formatter-error branch", s.pos(iff.Pos()), "the branch taken when the formatter fails does not return: control continues to the write")
-							}
-						}
-					}
-				}
-				_ = ifIns
-				if okGuard {
-					r.OK("C01/fmt-or-error", key, pos, "writes "+fcall.Call.StaticCallee().String()+" output under err == nil")
+				probs := c01Formatted(s, data, call.Block(), fn, key, 0, map[ssa.Value]bool{})
+				if len(probs) == 0 {
+					r.OK("C01/fmt-or-error", key, pos, "writes formatter output under err == nil (through wrappers/parameters where the code is split into helpers)")
 				} else {
-					r.Violation("C01/fmt-or-error", key, pos, "the write is not dominated by the success branch of the formatter's error test")
+					for _, pr := range probs {
+						r.Violation("C01/fmt-or-error", pr.key, pr.pos, pr.detail)
+					}
 				}
 			}
 		}
 	}
 	r.FloorMin("file write sites on the generation path", nWrites, 1)
+}
+
+type c01Prob struct{ key, pos, detail string }
+
+// c01Formatted: v, used in block `at` of fn, is formatter output obtained on the formatter's success
+// branch — directly, through a wrapper function that returns (formatter output, nil) / (_, non-nil
+// error), or through a parameter all of whose call sites pass such a value.
+func c01Formatted(s *S1, v ssa.Value, at *ssa.BasicBlock, fn *ssa.Function, key string, depth int, seen map[ssa.Value]bool) []c01Prob {
+	pos := s.pos(v.Pos())
+	if depth > 6 || seen[v] {
+		return []c01Prob{{key, pos, "formatter provenance too deep / cyclic"}}
+	}
+	seen[v] = true
+	for {
+		if cv, ok := v.(*ssa.Convert); ok {
+			v = cv.X
+			continue
+		}
+		if cv, ok := v.(*ssa.ChangeType); ok {
+			v = cv.X
+			continue
+		}
+		break
+	}
+	switch x := v.(type) {
+	case *ssa.Parameter:
+		pf := x.Parent()
+		idx := -1
+		for i, pp := range pf.Params {
+			if pp == x {
+				idx = i
+			}
+		}
+		node := s.CG.Nodes[pf]
+		var out []c01Prob
+		n := 0
+		if node != nil {
+			for _, e := range node.In {
+				if e.Site == nil || e.Caller == nil || e.Caller.Func == nil {
+					continue
+				}
+				cc := e.Site.Common()
+				ai := idx
+				if cc.IsInvoke() {
+					ai = idx - 1
+				}
+				if ai < 0 || ai >= len(cc.Args) {
+					continue
+				}
+				if !s.ReachAll[e.Caller.Func] {
+					continue
+				}
+				n++
+				out = append(out, c01Formatted(s, cc.Args[ai], e.Site.Block(), e.Caller.Func, key+" <- "+shortFn(e.Caller.Func), depth+1, seen)...)
+			}
+		}
+		if n == 0 {
+			return []c01Prob{{key, pos, fmt.Sprintf("the bytes written are parameter %s of %s, which has no caller on the generation path", x.Name(), shortFn(pf))}}
+		}
+		return out
+	case *ssa.Extract:
+		fcall, _ := x.Tuple.(*ssa.Call)
+		if x.Index != 0 || fcall == nil || fcall.Call.StaticCallee() == nil {
+			break
+		}
+		callee := fcall.Call.StaticCallee()
+		var out []c01Prob
+		if !formatterFuncs[callee.String()] {
+			// a wrapper of the repo: every return with a nil error must return formatter output
+			if callee.Pkg == nil || !isRepoPkg(callee.Pkg.Pkg.Path()) || callee.Blocks == nil {
+				break
+			}
+			nRet := 0
+			for _, b := range callee.Blocks {
+				for _, ins := range b.Instrs {
+					ret, ok := ins.(*ssa.Return)
+					if !ok || len(ret.Results) != 2 {
+						continue
+					}
+					nRet++
+					if isNilConst(ret.Results[1]) {
+						out = append(out, c01Formatted(s, ret.Results[0], b, callee, key+" <- "+shortFn(callee), depth+1, seen)...)
+					} else if _, isConst := ret.Results[1].(*ssa.Const); !isConst {
+						// a non-constant error result: fine when the value returned with it is never used on
+						// the caller's success path only if it is itself formatter output or nil
+						if !isNilConst(ret.Results[0]) {
+							out = append(out, c01Formatted(s, ret.Results[0], b, callee, key+" <- "+shortFn(callee), depth+1, seen)...)
+						}
+					}
+				}
+			}
+			if nRet == 0 {
+				break
+			}
+		}
+		// the use must be dominated by the success branch of the call's error test, and the failure
+		// branch must return a non-nil error
+		var errEx *ssa.Extract
+		for _, ref := range *fcall.Referrers() {
+			if e, ok := ref.(*ssa.Extract); ok && e.Index == 1 {
+				errEx = e
+			}
+		}
+		if errEx == nil {
+			return append(out, c01Prob{key, pos, "the formatter's error result is never extracted"})
+		}
+		okGuard := false
+		for _, ref := range *errEx.Referrers() {
+			bo, ok := ref.(*ssa.BinOp)
+			if !ok || (bo.Op != token.NEQ && bo.Op != token.EQL) || !(isNilConst(bo.X) || isNilConst(bo.Y)) {
+				continue
+			}
+			for _, r2 := range *bo.Referrers() {
+				iff, ok := r2.(*ssa.If)
+				if !ok {
+					continue
+				}
+				nilSucc := iff.Block().Succs[1]
+				errSucc := iff.Block().Succs[0]
+				if bo.Op == token.EQL {
+					nilSucc, errSucc = errSucc, nilSucc
+				}
+				if nilSucc.Dominates(at) && !errSucc.Dominates(at) {
+					okGuard = true
+					nRet := 0
+					for _, bb := range fn.Blocks {
+						if !errSucc.Dominates(bb) {
+							continue
+						}
+						for _, i2 := range bb.Instrs {
+							if ret, ok := i2.(*ssa.Return); ok {
+								nRet++
+								if len(ret.Results) == 0 || isNilConst(ret.Results[len(ret.Results)-1]) {
+									out = append(out, c01Prob{key + ":formatter-error branch", s.pos(ret.Pos()), "the branch taken when the formatter fails returns a nil error"})
+								}
+							}
+						}
+					}
+					if nRet == 0 {
+						out = append(out, c01Prob{key + ":formatter-error branch", s.pos(iff.Pos()), "the branch taken when the formatter fails does not return: control continues to the write"})
+					}
+				}
+			}
+		}
+		if !okGuard {
+			out = append(out, c01Prob{key, pos, "the write is not dominated by the success branch of the formatter's error test"})
+		}
+		return out
+	}
+	detail := fmt.Sprintf("the bytes written are %s (%T), not the first result of imports.Process/format.Source", v.String(), v)
+	if phi, ok := v.(*ssa.Phi); ok {
+		var es []string
+		for _, e := range phi.Edges {
+			es = append(es, e.Name()+"="+e.String())
+		}
+		detail = "the bytes written are a φ of " + strings.Join(es, " | ") + ": on some path the unformatted template text is written and success is reported"
+	}
+	return []c01Prob{{key, pos, detail}}
 }
 
 // ---------------------------------------------------------------------------
